@@ -313,3 +313,36 @@ T('j17_named_sniff_constants', ['C17'],
 B('j17_named_sniff_constant_str', ['C17'], 'R17.b',
   (RS, 'class BasicRender(object):', "_HTML_MARKER = '<html'\n\n\nclass BasicRender(object):"),
   (RS, "            elif b'<html' in context[:168]:", "            elif _HTML_MARKER in context[:168]:"))
+# the JSON guess under another (private) name; the sniffing in a public helper method
+T('j17_guess_renamed', ['C17'], (RS, 're:_guess_json', '_looks_like_json'))
+B('j17_guess_renamed_ints', ['C17'], 'R17.b', (RS, 're:_guess_json', '_looks_like_json'), (RS, "bytestr[:1] == b'['", "bytestr[0] == b'['"))
+T('j17_public_sniff_method', ['C17'],
+  (RS, '''            if self._guess_json(context):
+                return Response(context, mimetype="application/json")
+            elif b'<html' in context[:168]:
+                # based on the longest DOCTYPE I found in a brief search
+                return Response(context, mimetype="text/html")
+            else:
+                return Response(context, mimetype="text/plain")
+''', '            return Response(context, mimetype=self.sniff_mimetype(context))\n'),
+  (RS, _SR_HEAD, '''    def sniff_mimetype(self, body):
+        if self._guess_json(body):
+            return "application/json"
+        return "text/html" if b'<html' in body[:168] else "text/plain"
+
+''' + _SR_HEAD))
+B('j17_public_sniff_method_html_first', ['C17'], 'R17.c',
+  (RS, '''            if self._guess_json(context):
+                return Response(context, mimetype="application/json")
+            elif b'<html' in context[:168]:
+                # based on the longest DOCTYPE I found in a brief search
+                return Response(context, mimetype="text/html")
+            else:
+                return Response(context, mimetype="text/plain")
+''', '            return Response(context, mimetype=self.sniff_mimetype(context))\n'),
+  (RS, _SR_HEAD, '''    def sniff_mimetype(self, body):
+        if b'<html' in body[:168]:
+            return "text/html"
+        return "application/json" if self._guess_json(body) else "text/plain"
+
+''' + _SR_HEAD))
